@@ -436,7 +436,9 @@ def write_summary_file_vue(stats, filepath, year=2025, currency_format="${amount
     }
 
     # Assemble final HTML
-    data_script = f'window.spendingData = {json.dumps(spending_data)};'
+    # Escape '</' so text from the statements cannot close the <script> element
+    data_json = json.dumps(spending_data).replace('</', '<\\/')
+    data_script = f'window.spendingData = {data_json};'
 
     if not embedded_html:
         # Write separate files for easier development
